@@ -1,7 +1,7 @@
 CONSTANTS
   MaxLinks = 1
   OptStride = 96
-  LinkStride = 256
+  LinkStride = 512
   PermMax = 4
 SPECIFICATION Spec
 INVARIANTS Terminates NothingRejected StackBounded EndBag EndValid EndAllOuts EndExpected EndLoop EndParentChild EndSiblings EndOnce EndExactSet PredicateTight ExpectedAdmissible ListingLemma
